@@ -279,13 +279,23 @@ def random_cpp(seed, fnptr=False, wrapped=False, layout=False, plain=False, wrap
     # now and then a trait outside a group shares an entry name with a trait inside it, while no two traits of the group do
     for gname, (mand, opt) in sorted(m.groups.items()):
         inside = [t for t in mand + opt if t != "Clone"]
-        outside = [t for t in m.traits if t not in mand + opt and t != "Clone" and not m.traits[t].rettmp_fields and not any(t in g[0] + g[1] for g in m.groups.values())]
-        if inside and outside and rng.random() < 0.5:
-            src = m.traits[rng.choice(inside)].methods[0].name
-            if sum(1 for t in inside for mm in m.traits[t].methods if mm.name == src) == 1:
-                tgt = m.traits[rng.choice(outside)]
-                if all(mm.name != src for mm in tgt.methods):
-                    tgt.methods[0].name = src
+        if not inside or not any(r[0] == "group" and r[1] == gname for r in m.roots) or rng.random() >= 0.9:
+            continue
+        cands = [mm.name for t in inside for mm in m.traits[t].methods if sum(1 for t2 in inside for x in m.traits[t2].methods if x.name == mm.name) == 1]
+        if not cands:
+            continue
+        src = rng.choice(cands)
+        outside = [t for t in m.traits if t != "Clone" and not m.traits[t].rettmp_fields and not any(t in g[0] + g[1] for g in m.groups.values())]
+        if outside:
+            tgt = m.traits[rng.choice(outside)]
+            if all(mm.name != src for mm in tgt.methods):
+                tgt.methods[0].name = src
+        else:
+            tgt = emit.Trait("Probe", [emit.Method(src, "ref", [], "uint64_t"), emit.Method("probe_reset", "mut", [("uint32_t", "a0")])])
+            m.traits["Probe"] = tgt
+        if not any(r[0] == "obj" and r[1] == tgt.name for r in m.roots):
+            m.roots.append(("obj", tgt.name, "Box", ""))   # the trait must be in the header at all
+        break
     # UserThing and Settings first: later user declarations and functions mention them
     user = [(0, USER_DECLS_CPP[0]), (0, USER_DECLS_CPP[2])]
     user += [(rng.randint(0, 12), u) for u in rng.sample(USER_DECLS_CPP[1:2] + USER_DECLS_CPP[3:], rng.randint(2, len(USER_DECLS_CPP) - 2))]
